@@ -43,6 +43,13 @@ type concResult struct {
 	Phase string  `json:"phase"`
 	Err   string  `json:"err"`
 	Rows  [][]Val `json:"rows"`
+	// what the caller sees when it binds its query to a returned error and prints it (README usage)
+	Rendered string `json:"rendered"`
+	// the same statement run alone on the initial store (sequentially, before the concurrent run)
+	HasAlone      bool    `json:"hasalone"`
+	AlonePhase    string  `json:"alonephase"`
+	AloneRows     [][]Val `json:"alonerows"`
+	AloneRendered string  `json:"alonerendered"`
 }
 
 type concTrace struct {
@@ -78,9 +85,9 @@ func concStmt(c concStmtJ) *Stmt {
 }
 
 // runConcurrent runs the statements on goroutines; sched (1-based session ids) gates the storage calls when non-nil.
-func runConcurrent(store []SPair, stmts []*Stmt, sched []int, bsize int, modes []string) ([]Event, []concResult, []SPair, string) {
+func runConcurrent(store []SPair, texts []string, sched []int, bsize int, modes []string) ([]Event, []concResult, []SPair, string) {
 	sh := &Shared{St: NewRefStore(kvOf(store))}
-	n := len(stmts)
+	n := len(texts)
 	kvql.PlanBatchSize = bsize
 	kvql.EnableFieldCache = true
 	results := make([]concResult, n)
@@ -123,8 +130,12 @@ func runConcurrent(store []SPair, stmts []*Stmt, sched []int, bsize int, modes [
 			}
 			<-start
 			rec := NewRec(sh, p)
-			o := RunQuery(stmts[p-1].Text(), rec, rec, RunOpts{Mode: modes[(p-1)%len(modes)], Cache: true, P: p, NoGlobals: true})
-			results[p-1] = concResult{P: p, Phase: o.Phase, Err: firstLine(o.ErrMsg), Rows: o.Rows}
+			o := RunQuery(texts[p-1], rec, rec, RunOpts{Mode: modes[(p-1)%len(modes)], Cache: true, P: p, NoGlobals: true})
+			rendered := ""
+			if o.err != nil {
+				rendered, _ = BindAndRender(o.err, texts[p-1], -1)
+			}
+			results[p-1] = concResult{P: p, Phase: o.Phase, Err: firstLine(o.ErrMsg), Rows: o.Rows, Rendered: rendered, AloneRows: [][]Val{}}
 		}(p)
 	}
 	close(start)
@@ -226,7 +237,11 @@ func init() {
 			if out.Stats.Cases%997 == 1 {
 				out.Stats.sample(map[string]any{"statements": q, "schedule": cc.Sched, "store_pairs": len(store)})
 			}
-			log, results, _, stuck := runConcurrent(store, stmts, cc.Sched, cc.B, []string{"row"})
+			texts := make([]string, len(stmts))
+			for i, st := range stmts {
+				texts[i] = st.Text()
+			}
+			log, results, _, stuck := runConcurrent(store, texts, cc.Sched, cc.B, []string{"row"})
 			out.Stats.Evaluations++
 			if stuck != "" {
 				out.Infra = append(out.Infra, "gated replay stuck: "+stuck+" in "+q)
@@ -257,8 +272,14 @@ func init() {
 					store = append(store, KV{[]byte(fmt.Sprintf("r%02dk%d", reg, k)), []byte(fmt.Sprint((reg*7 + k*3) % 6))})
 				}
 			}
+			for reg := 0; reg < 16; reg++ {
+				for k := 0; k < 5; k++ {
+					store = append(store, KV{[]byte(fmt.Sprintf("j%02dk%d", reg, k)), []byte(fmt.Sprintf(`{"a":"%d-%d","n":%d}`, reg, k, reg*10+k))})
+				}
+			}
 			sp := plainPairs(NewRefStore(store).Snapshot())
 			stmts := []*Stmt{}
+			texts := []string{}
 			q := ""
 			writerRegion := map[int]bool{}
 			readerRegion := map[int]bool{}
@@ -268,16 +289,20 @@ func init() {
 				kpre := ABin("^=", AKey(), pre)
 				n := Field{E: ACall("int", AVal()), Nm: "n"}
 				var st *Stmt
-				kind := r.Intn(11)
+				raw := ""
+				kind := r.Intn(14)
 				if kind == 10 {
 					kind = 5
 				}
-				if kind >= 6 { // writer: needs a region nobody else uses
+				if kind >= 11 {
+					kind += 89 // 100, 101, 102: readers of a different sort (below)
+				}
+				if kind >= 6 && kind < 100 { // writer: needs a region nobody else uses
 					if writerRegion[reg] || readerRegion[reg] {
 						kind = r.Intn(6)
 					}
 				}
-				if kind < 6 && writerRegion[reg] {
+				if (kind < 6 || kind >= 100) && writerRegion[reg] {
 					// a reader must not look at a writer's region: pick a free one
 					for t := 0; t < 16 && writerRegion[reg]; t++ {
 						reg = (reg + 1) % 16
@@ -313,17 +338,34 @@ func init() {
 					st = &Stmt{Kind: "delete", Where: ABin("&", kpre, ABin(">", ACall("int", AVal()), AInt(2)))}
 				case 8:
 					st = &Stmt{Kind: "remove", Keys: []*Node{AStr(fmt.Sprintf("r%02dk1", reg)), AStr(fmt.Sprintf("r%02dk2", reg))}}
+				case 100:
+					// a statement cut off in the middle: refused; the caller binds ITS query to the error and prints it
+					raw = []string{"select * where key ^= 'r%02d' &", "select * where key ^= 'r%02d' | value in", "put ('r%02dk'", "select * where key = 'r%02d' & !",
+						"select key as where key ^= 'r%02d'", "delete where key ^= 'r%02d' limit", "select * where nosuchfn(key) = 'r%02d'", "select * where key ^= 'r%02d' and (value = 'x'"}[r.Intn(8)]
+					raw = fmt.Sprintf(raw, reg)
+					st = &Stmt{Kind: "select", Where: kpre} // placeholder for the record (kind select: no effect on the store)
+				case 101:
+					// a JSON member of every pair of the statement's own region (documents differ per region and pair)
+					st = &Stmt{Kind: "select", Fields: []Field{{E: AKey()}, {E: AIdx(ACall("json", AVal()), AStr("a")), Nm: "a"}, {E: AIdx(ACall("json", AVal()), AStr("n")), Nm: "n"}},
+						Where: ABin("^=", AKey(), AStr(fmt.Sprintf("j%02d", reg)))}
+				case 102:
+					st = &Stmt{Kind: "select", Fields: []Field{{E: ACall("group_concat", AIdx(ACall("json", AVal()), AStr("a")), AStr(",")), Nm: "as"}, {E: ACall("count", AInt(1)), Nm: "c"}},
+						Where: ABin("^=", AKey(), AStr(fmt.Sprintf("j%02d", reg)))}
 				default:
 					st = &Stmt{Kind: "delete", Where: kpre, Lim: Lim{Has: true, S: 1, N: 3}}
 				}
-				if kind >= 6 {
+				if kind >= 6 && kind < 100 {
 					writerRegion[reg] = true
 				} else {
 					readerRegion[reg] = true
 				}
 				st.fix()
 				stmts = append(stmts, st)
-				q += st.Text() + " || "
+				if raw == "" {
+					raw = st.Text()
+				}
+				texts = append(texts, raw)
+				q += raw + " || "
 			}
 			if len(stmts) < 2 {
 				continue
@@ -333,7 +375,24 @@ func init() {
 			if i%97 == 0 {
 				out.Stats.sample(map[string]any{"goroutines": len(stmts), "statements": q})
 			}
-			log, results, _, _ := runConcurrent(sp, stmts, nil, []int{1, 2, 3, 32}[r.Intn(4)], []string{"row", "batch"})
+			bsz := []int{1, 2, 3, 32}[r.Intn(4)]
+			// every statement alone first (sequentially, each on its own copy of the initial store, in the mode it will run in)
+			modes := []string{"row", "batch"}
+			alone := make([]concResult, len(texts))
+			for p := range texts {
+				o, _ := RunOn(texts[p], kvOf(sp), RunOpts{Mode: modes[p%len(modes)], BSize: bsz, Cache: true, NoLog: true})
+				alone[p] = concResult{Phase: o.Phase, Rows: o.Rows}
+				if o.err != nil {
+					alone[p].Rendered, _ = BindAndRender(o.err, texts[p], -1)
+				}
+			}
+			log, results, _, _ := runConcurrent(sp, texts, nil, bsz, modes)
+			for p := range results {
+				results[p].HasAlone, results[p].AlonePhase, results[p].AloneRows, results[p].AloneRendered = true, alone[p].Phase, alone[p].Rows, alone[p].Rendered
+				if results[p].AloneRows == nil {
+					results[p].AloneRows = [][]Val{}
+				}
+			}
 			out.Stats.Evaluations++
 			out.Trace("conc", concTrace{ID: id, Q: q, Store: sp, Stmts: stmts, Events: concEventsOnly(log), Results: results, Sched: []int{}})
 		}
